@@ -55,6 +55,15 @@ struct Ctx {
     void run_clients(const std::function<void(int)>& begin, const std::function<void(int, const Op&)>& op, const std::function<void(int)>& end);
 };
 
+// F10 (eager reclamation) in container runs: the harness-decided HP/DHP pass runs as one indivisible step unless a subject opts out.
+// A pass that can be pre-empted between two hazard slots of one thread misses a pointer that the thread copies from one guard to
+// another meanwhile (known finding, DESIGN.md 9.2); the library's own traversals do such copies (MichaelList, LazyList, skip list,
+// Ellen tree, BasketQueue), after which they touch a freed node once, fail a validation and retry.  That known defect is reported
+// where it is a property matter (C19 iterators, which keep pre-emptible passes and classify it); everywhere else it would only drown
+// the use-after-free oracle.  The scan strategies themselves are explored with full pre-emption by the SMR exerciser (C01-C03).
+extern bool g_atomic_eager_pass;   // default true; defined in harness/core.cpp
+struct EagerPass { bool on; EagerPass() : on(g_atomic_eager_pass) { if (on) dsim::uninterruptible(true); } ~EagerPass() { if (on) dsim::uninterruptible(false); } };
+
 struct Subject {
     const char* name;
     const char* props;                // comma separated property ids served, e.g. "C01,C03"
